@@ -963,8 +963,8 @@ class Namespace:
     def arange(self, start, stop=None, step=1, dtype=None, **kw):
         if stop is None:
             start, stop = 0, start
-        if not (step > 0):
-            raise Unsupported("arange with a non-positive symbolic step")
+        if step == 0:
+            raise ZeroDivisionError("arange with step 0")
         n = -((-(stop - start)) // step)
         if n < 0:
             n = 0
